@@ -83,7 +83,7 @@ def pathVerdict : Option (List SS) → List Seg → PV
     | some (.anyLeaf _) => if sg.hasKey then .refused else pathVerdict none rest
     | some (.cont _ ks) => if sg.hasKey then .refused else pathVerdict (some ks) rest
     | some (.list _ keys ks) =>
-      if sg.hasKey && sg.keys.length < keys.length then .refused   -- fewer components than keys
+      if sg.hasKey && sg.keys.length ≠ keys.length then .refused   -- not one component per key leaf
       else pathVerdict (some ks) rest
 
 end YangVerif.Shape
